@@ -1378,6 +1378,7 @@ int32_t jls_core_repair_fsr(struct jls_core_s * self, uint16_t signal_id) {
 
     // update level 0 (data)
     jls_core_fsr_sample_buffer_alloc(signal_info->track_fsr);
+    int64_t sample_id_expect = INT64_MIN;
     while (offset) {
         if (jls_raw_chunk_seek(self->raw, offset) || jls_core_rd_chunk(self)) {
             break;
@@ -1394,6 +1395,15 @@ int32_t jls_core_repair_fsr(struct jls_core_s * self, uint16_t signal_id) {
             JLS_LOGE("repair_fsr signal_id %d: invalid data chunk entry count.  Cannot repair.", (int) signal_id);
             break;
         }
+        int64_t sample_id = ((struct jls_fsr_data_s *) self->buf->start)->header.timestamp;
+        if ((sample_id_expect != INT64_MIN) && (sample_id != sample_id_expect)) {
+            // Blocks omitted by the writer lie between this chunk and the previous one.  Their
+            // summaries were never stored, so they cannot be indexed: the recovered signal ends here.
+            JLS_LOGW("repair_fsr signal_id %d: omitted data before sample_id %" PRIi64 ".  Truncating.",
+                     (int) signal_id, sample_id);
+            break;
+        }
+        sample_id_expect = sample_id + signal_info->signal_def.samples_per_data;
         memcpy(signal_info->track_fsr->data, self->buf->start, self->buf->length);
         JLS_LOGI("repair_fsr signal_id %d, level %d, offset %" PRIi64 " sample_id %" PRIi64 " to %" PRIi64 " data[0]=%f",
                  (int) signal_id, (int) level, offset,
